@@ -12,7 +12,7 @@
 (* Router semantics (Decide, FirstMatch, Lifetime, Aged, EcsOption, ...)   *)
 (* come from Router.tla; domain-set matching from DomainSet.tla.           *)
 (***************************************************************************)
-EXTENDS TraceBase, FiniteSets, DomainLines, RouterOps, Wire
+EXTENDS TraceBase, FiniteSets, DomainLines, RouterOps, Wire, LimiterOps
 
 VARIABLES l,
           cfg,       \* [rules, sets (tag -> entries), ecs, cache, maxttl]
@@ -24,11 +24,12 @@ VARIABLES l,
           pf,        \* set of prefetch keys reserved
           fwd,       \* lname -> set of client addresses forwarded for (rt.fwd)
           seen,      \* tok -> the shape of the first response that carried it
-          outst      \* <<name, cls, typ>> -> upstream exchanges received and not yet answered
-tvars == <<l, cfg, q, answered, upsent, upq, stores, pf, fwd, seen, outst>>
+          outst,     \* <<name, cls, typ>> -> upstream exchanges received and not yet answered
+          ladm       \* limiter: recent admitted charges [k, t, n] (C15 live part)
+tvars == <<l, cfg, q, answered, upsent, upq, stores, pf, fwd, seen, outst, ladm>>
 
-NoCfg == [rules |-> <<>>, sets |-> <<>>, ecs |-> FALSE, cache |-> FALSE, maxttl |-> 0, markers |-> <<>>]
-Init == l = 1 /\ cfg = NoCfg /\ q = <<>> /\ answered = {} /\ upsent = <<>> /\ upq = {} /\ stores = <<>> /\ pf = {} /\ fwd = <<>> /\ seen = <<>> /\ outst = <<>> /\ InitMark
+NoCfg == [rules |-> <<>>, sets |-> <<>>, ecs |-> FALSE, cache |-> FALSE, maxttl |-> 0, markers |-> <<>>, clients |-> <<>>, limit |-> 0, burst |-> 0, v4mask |-> 0, v6mask |-> 0]
+Init == l = 1 /\ cfg = NoCfg /\ q = <<>> /\ answered = {} /\ upsent = <<>> /\ upq = {} /\ stores = <<>> /\ pf = {} /\ fwd = <<>> /\ seen = <<>> /\ outst = <<>> /\ ladm = <<>> /\ InitMark
 IsEvent(e) == l <= Len(Trace) /\ Trace[l].ev = e /\ l' = l + 1 /\ Mark(l)
 With(f, k, v) == [x \in DOMAIN f \cup {k} |-> IF x = k THEN v ELSE f[x]]
 
@@ -39,15 +40,16 @@ Cfg == /\ IsEvent("cfg")
           cfg' = [rules |-> ev.rules,
                   sets |-> [t \in {ev.settags[i] : i \in 1..Len(ev.settags)} |->
                               SetEntries(ev.setlines[CHOOSE i \in 1..Len(ev.settags) : ev.settags[i] = t])],
-                  ecs |-> ev.ecs, cache |-> ev.cache, maxttl |-> ev.maxttl, markers |-> ev.markers]
-       /\ q' = <<>> /\ answered' = {} /\ upsent' = <<>> /\ upq' = {} /\ stores' = <<>> /\ pf' = {} /\ fwd' = <<>> /\ seen' = <<>> /\ outst' = <<>>
+                  ecs |-> ev.ecs, cache |-> ev.cache, maxttl |-> ev.maxttl, markers |-> ev.markers,
+                  clients |-> ev.clients, limit |-> ev.limit, burst |-> ev.burst, v4mask |-> ev.v4mask, v6mask |-> ev.v6mask]
+       /\ q' = <<>> /\ answered' = {} /\ upsent' = <<>> /\ upq' = {} /\ stores' = <<>> /\ pf' = {} /\ fwd' = <<>> /\ seen' = <<>> /\ outst' = <<>> /\ ladm' = <<>>
 
 Dec(n) == Decide(cfg.rules, cfg.sets, n)
 
 \* ---------------------------------------------------------------- clients
 ClSend == /\ IsEvent("cl.send")
           /\ q' = With(q, Trace[l].qn, Trace[l])
-          /\ UNCHANGED <<cfg, answered, upsent, upq, stores, pf, fwd, seen, outst>>
+          /\ UNCHANGED <<cfg, answered, upsent, upq, stores, pf, fwd, seen, outst, ladm>>
 
 Supported(s) == ~s.qr /\ s.rd /\ s.opcode = 0 /\ s.nq = 1
 
@@ -58,6 +60,8 @@ ReplyRcodes(u, n, c, t) == {upsent[k].rcode : k \in {k \in DOMAIN upsent :
 Failed(u, n, c, t) == \E k \in DOMAIN upsent : upsent[k].up = u /\ upsent[k].name = n /\ upsent[k].cls = c /\ upsent[k].typ = t
                                /\ upsent[k].kind # "reply"
 
+SharedConnFault(u, t0) == \E k \in DOMAIN upsent : upsent[k].up = u /\ upsent[k].proto = "tcp"
+                                /\ upsent[k].kind \in {"garbage", "close"} /\ upsent[k].t + 100 >= t0
 ExpectedRcodes(s) ==
     IF ~Supported(s) THEN {4}
     ELSE LET n == LowerName(s.name)  d == Dec(n) IN
@@ -65,6 +69,10 @@ ExpectedRcodes(s) ==
          ELSE IF d.kind = "refused" THEN {5}
          ELSE ReplyRcodes(d.up, n, s.cls, s.typ)
               \cup (IF Failed(d.up, n, s.cls, s.typ) \/ ReplyRcodes(d.up, n, s.cls, s.typ) = {} THEN {2} ELSE {})
+              \cup (IF cfg.limit > 0 /\ Has(s, "mayrefuse") /\ s.mayrefuse THEN {5} ELSE {})   \* refused by the rate limiter
+              \* a stream connection to this upstream was broken (garbage / close for ANY question) while this
+              \* query was in flight: on a multiplexed connection that fails every exchange waiting on it
+              \cup (IF SharedConnFault(d.up, s.t) THEN {2} ELSE {})
 
 HeaderOk(s, ev) == /\ ev.id = s.id /\ ev.opcode = s.opcode /\ ev.qr /\ ev.ra /\ ev.rd = s.rd
                    /\ ev.nq <= 1
@@ -139,6 +147,15 @@ RenewedOk(s, ev) == FromCache(s, ev) =>
     LET mine == StoreOfTok(stores, RespTok(ev)) IN
     mine.found => ~\E st \in KeyStores(s) : st.rcode = 0 /\ st.stored > mine.stored /\ st.stored + 50 < s.t /\ s.t + 50 < st.expire
 
+\* C15: a query answered REFUSED by the limiter (the rules would have forwarded it) never reached an upstream
+RefusedNotForwarded(s, ev) ==
+    (cfg.limit > 0 /\ Supported(s) /\ ev.rcode = 5 /\ Dec(LowerName(s.name)).kind = "forward") =>
+        ~\E x \in upq : x[2] = LowerName(s.name)
+
+\* a client whose own subnet stays within its budget is never refused because of other subnets' traffic
+IsolationOk(s, ev) == (cfg.limit > 0 /\ Supported(s) /\ ~(Has(s, "mayrefuse") /\ s.mayrefuse) /\ Dec(LowerName(s.name)).kind = "forward")
+                         => ev.rcode # 5
+
 ClRecv == /\ IsEvent("cl.recv")
           /\ LET ev == Trace[l]  s == q[ev.qn] IN
              /\ Report(l, (IF ev.qn \in answered THEN {"Inv_C03_AtMostOne"} ELSE {})
@@ -154,18 +171,20 @@ ClRecv == /\ IsEvent("cl.recv")
                                \cup (IF MustHitOk(s, ev) THEN {} ELSE {"Inv_C07_MustHit"})
                                \cup (IF NoBadCacheOk(s, ev) THEN {} ELSE {"Inv_C08_NoBadCache"})
                                \cup (IF NoDisplaceOk(s, ev) THEN {} ELSE {"Inv_C08_NoDisplace"})
+                               \cup (IF RefusedNotForwarded(s, ev) THEN {} ELSE {"Inv_C15_Refused"})
+                               \cup (IF IsolationOk(s, ev) THEN {} ELSE {"Inv_C15_Isolation"})
                                \cup (IF NoDelayOk(s, ev) THEN {} ELSE {"Inv_C19_NoDelay"})
                                \cup (IF RenewedOk(s, ev) THEN {} ELSE {"Inv_C19_Renewed"})))
              /\ answered' = answered \cup {ev.qn}
              /\ seen' = IF ev.ok /\ RespTok(ev) # 0 /\ RespTok(ev) \notin DOMAIN seen THEN With(seen, RespTok(ev), Shape(ev)) ELSE seen
-          /\ UNCHANGED <<cfg, q, upsent, upq, stores, pf, fwd, outst>>
+          /\ UNCHANGED <<cfg, q, upsent, upq, stores, pf, fwd, outst, ladm>>
 
 \* no usable response: a violation for a decodable query (QR=0) unless the scenario says the
 \* client was expected to be refused at connection level (field "mayrefuse" of the send)
 ClNone == /\ IsEvent("cl.none")
           /\ LET ev == Trace[l]  s == q[ev.qn] IN
              Report(l, IF ~s.qr /\ ~(Has(s, "mayrefuse") /\ s.mayrefuse) THEN {"Inv_C03_Answered"} ELSE {})
-          /\ UNCHANGED <<cfg, q, answered, upsent, upq, stores, pf, fwd, seen, outst>>
+          /\ UNCHANGED <<cfg, q, answered, upsent, upq, stores, pf, fwd, seen, outst, ladm>>
 
 \* ---------------------------------------------------------------- upstreams
 AskedBy(n, c, t) == \E k \in DOMAIN q : IF Has(q[k], "name") THEN LowerName(q[k].name) = n /\ q[k].cls = c /\ q[k].typ = t /\ Supported(q[k]) ELSE FALSE
@@ -195,28 +214,28 @@ UpRecv == /\ IsEvent("up.recv")
                              THEN {"Inv_C19_SingleUp"} ELSE {}))
              /\ upq' = upq \cup {<<ev.up, ev.name, ev.cls, ev.typ>>}
              /\ outst' = With(outst, <<ev.name, ev.cls, ev.typ>>, Outst(<<ev.name, ev.cls, ev.typ>>) + 1)
-          /\ UNCHANGED <<cfg, q, answered, upsent, stores, pf, fwd, seen>>
+          /\ UNCHANGED <<cfg, q, answered, upsent, stores, pf, fwd, seen, ladm>>
 
 UpSend == /\ IsEvent("up.send")
           /\ upsent' = With(upsent, Trace[l].tok, Trace[l])
           /\ LET k == <<Trace[l].name, Trace[l].cls, Trace[l].typ>> IN
              outst' = With(outst, k, IF Outst(k) > 0 THEN Outst(k) - 1 ELSE 0)
-          /\ UNCHANGED <<cfg, q, answered, upq, stores, pf, fwd, seen>>
+          /\ UNCHANGED <<cfg, q, answered, upq, stores, pf, fwd, seen, ladm>>
 
 \* ---------------------------------------------------------------- hooks
 RtRule == /\ IsEvent("rt.rule")
           /\ Report(l, IF Trace[l].idx = FirstMatch(cfg.rules, cfg.sets, Trace[l].name) THEN {} ELSE {"Inv_C10_FirstMatch"})
-          /\ UNCHANGED <<cfg, q, answered, upsent, upq, stores, pf, fwd, seen, outst>>
+          /\ UNCHANGED <<cfg, q, answered, upsent, upq, stores, pf, fwd, seen, outst, ladm>>
 
 RtFwd == /\ IsEvent("rt.fwd")
          /\ LET ev == Trace[l] IN
             fwd' = With(fwd, ev.name, (IF ev.name \in DOMAIN fwd THEN fwd[ev.name] ELSE {}) \cup {ev.remote})
-         /\ UNCHANGED <<cfg, q, answered, upsent, upq, stores, pf, seen, outst>>
+         /\ UNCHANGED <<cfg, q, answered, upsent, upq, stores, pf, seen, outst, ladm>>
 
 \* a request for which no rule matched must not carry a rule index
 RtDone == /\ IsEvent("rt.done")
-          /\ UNCHANGED <<cfg, q, answered, upsent, upq, stores, pf, fwd, seen, outst>>
-RtReq == IsEvent("rt.req") /\ UNCHANGED <<cfg, q, answered, upsent, upq, stores, pf, fwd, seen, outst>>
+          /\ UNCHANGED <<cfg, q, answered, upsent, upq, stores, pf, fwd, seen, outst, ladm>>
+RtReq == IsEvent("rt.req") /\ UNCHANGED <<cfg, q, answered, upsent, upq, stores, pf, fwd, seen, outst, ladm>>
 
 \* C07: the key under which the cache is consulted / filled is a function of exactly
 \* (name, class, type, client group)
@@ -228,7 +247,7 @@ CacheGet == /\ IsEvent("cache.get")
                IN Report(l, (IF ev.key = KeyBytes(ev.name, ev.cls, ev.typ, ev.mark) THEN {} ELSE {"Inv_C07_Key"})
                          \cup (IF hitsOk THEN {} ELSE {"Inv_C07_KeyEq"})
                          \cup (IF ev.mark = Group(ev.remote) THEN {} ELSE {"Inv_C07_Group"}))
-            /\ UNCHANGED <<cfg, q, answered, upsent, upq, stores, pf, fwd, seen, outst>>
+            /\ UNCHANGED <<cfg, q, answered, upsent, upq, stores, pf, fwd, seen, outst, ladm>>
 
 CacheStore == /\ IsEvent("cache.store")
               /\ LET ev == Trace[l] IN
@@ -242,8 +261,8 @@ CacheStore == /\ IsEvent("cache.store")
                                                     /\ upsent[ev.tok].cls = ev.cls /\ upsent[ev.tok].typ = ev.typ)
                                  THEN {"Inv_C07_StoreOwnKey"} ELSE {}))
                  /\ stores' = With(stores, ev.key, (IF ev.key \in DOMAIN stores THEN stores[ev.key] ELSE <<>>) \o <<ev>>)
-              /\ UNCHANGED <<cfg, q, answered, upsent, upq, pf, fwd, seen, outst>>
-CacheStored == IsEvent("cache.stored") /\ UNCHANGED <<cfg, q, answered, upsent, upq, stores, pf, fwd, seen, outst>>
+              /\ UNCHANGED <<cfg, q, answered, upsent, upq, pf, fwd, seen, outst, ladm>>
+CacheStored == IsEvent("cache.stored") /\ UNCHANGED <<cfg, q, answered, upsent, upq, stores, pf, fwd, seen, outst, ladm>>
 
 \* C19: at most one refresh in flight per (question, client group)
 PfReserve == /\ IsEvent("pf.reserve")
@@ -251,20 +270,20 @@ PfReserve == /\ IsEvent("pf.reserve")
                 /\ Report(l, IF ev.ok /\ ev.key \in pf THEN {"Inv_C19_Single"}
                              ELSE IF ~ev.ok /\ ev.key \notin pf THEN {"Inv_C19_SpuriousDup"} ELSE {})
                 /\ pf' = IF ev.ok THEN pf \cup {ev.key} ELSE pf
-             /\ UNCHANGED <<cfg, q, answered, upsent, upq, stores, fwd, seen, outst>>
+             /\ UNCHANGED <<cfg, q, answered, upsent, upq, stores, fwd, seen, outst, ladm>>
 PfDone == /\ IsEvent("pf.done")
           /\ pf' = pf \ {Trace[l].key}
-          /\ UNCHANGED <<cfg, q, answered, upsent, upq, stores, fwd, seen, outst>>
+          /\ UNCHANGED <<cfg, q, answered, upsent, upq, stores, fwd, seen, outst, ladm>>
 
 \* C10: a configuration naming an unknown upstream / domain-set tag, repeating a tag or containing an
 \* unknown key is rejected at start-up
 ValidConfig(ev) == ~(ev.unkfwd \/ ev.unkset \/ ev.dupup \/ ev.dupset \/ ev.unkkey)
 Boot == /\ IsEvent("boot")
         /\ Report(l, IF Trace[l].started = ValidConfig(Trace[l]) THEN {} ELSE {"Inv_C10_StrictConfig"})
-        /\ UNCHANGED <<cfg, q, answered, upsent, upq, stores, pf, fwd, seen, outst>>
+        /\ UNCHANGED <<cfg, q, answered, upsent, upq, stores, pf, fwd, seen, outst, ladm>>
 
 \* C01: input that cannot be decoded is rejected in the listener's way; decodable input is answered
-RawSend == IsEvent("raw.send") /\ q' = With(q, Trace[l].qn, Trace[l]) /\ UNCHANGED <<cfg, answered, upsent, upq, stores, pf, fwd, seen, outst>>
+RawSend == IsEvent("raw.send") /\ q' = With(q, Trace[l].qn, Trace[l]) /\ UNCHANGED <<cfg, answered, upsent, upq, stores, pf, fwd, seen, outst, ladm>>
 RejectKinds(lst) == IF lst = "udp" THEN {"none"}
                     ELSE IF lst \in {"tcp", "gnet", "tls", "quic"} THEN {"closed", "none"}
                     ELSE {"http400"}
@@ -275,13 +294,33 @@ RawOut == /\ IsEvent("raw.out")
                  expected == IF ~exact THEN {"closed", "none", "resp"}     \* a lying length prefix desynchronises the stream: any non-crash outcome
                              ELSE IF dec THEN {"resp"} ELSE RejectKinds(ev.lst)
              IN Report(l, IF ev.outcome \in expected THEN {} ELSE {"Inv_C01_Reject"})
-          /\ UNCHANGED <<cfg, q, answered, upsent, upq, stores, pf, fwd, seen, outst>>
+          /\ UNCHANGED <<cfg, q, answered, upsent, upq, stores, pf, fwd, seen, outst, ladm>>
 
-Other == (IsEvent("lim.cl") \/ IsEvent("note") \/ IsEvent("up.recv.bad"))
+\* C15 (live): the limiter is charged for the client's own masked subnet, and what it admits per subnet
+\* stays within burst + rate x window (real time, 3 ms tolerance for millisecond stamps)
+RECURSIVE SumTailL(_, _, _)
+SumTailL(s, k, i) == IF i > Len(s) THEN 0 ELSE (IF s[i].k = k THEN s[i].n ELSE 0) + SumTailL(s, k, i + 1)
+EffB == IF cfg.burst <= 0 THEN cfg.limit ELSE cfg.burst
+BudgetNewestL(s) == LET j == Len(s) IN
+    \A i \in 1..j : s[i].k = s[j].k =>
+        SumTailL(s, s[j].k, i) * 1000 <= EffB * 1000 + cfg.limit * (s[j].t - s[i].t + 3)
+TruncL(s) == IF Len(s) > 40 THEN SubSeq(s, Len(s) - 39, Len(s)) ELSE s
+LimCl == /\ IsEvent("lim.cl")
+         /\ LET ev == Trace[l]
+                isClient == \E i \in 1..Len(cfg.clients) : cfg.clients[i] = ev.addr
+                k == KeyM(ev.addr, cfg.v4mask, cfg.v6mask)
+                adm2 == IF ev.res THEN Append(ladm, [k |-> k, t |-> ev.now, n |-> ev.n]) ELSE ladm
+            IN /\ Report(l, (IF isClient THEN {} ELSE {"Inv_C15_ChargedAddress"})
+                         \cup (IF ev.key = k THEN {} ELSE {"Inv_C15_Key"})
+                         \cup (IF ev.res /\ ~BudgetNewestL(adm2) THEN {"Inv_C15_Budget"} ELSE {}))
+               /\ ladm' = TruncL(adm2)
          /\ UNCHANGED <<cfg, q, answered, upsent, upq, stores, pf, fwd, seen, outst>>
 
+Other == (IsEvent("note") \/ IsEvent("up.recv.bad"))
+         /\ UNCHANGED <<cfg, q, answered, upsent, upq, stores, pf, fwd, seen, outst, ladm>>
+
 Next == Cfg \/ ClSend \/ ClRecv \/ ClNone \/ UpRecv \/ UpSend \/ RtRule \/ RtFwd \/ RtDone \/ RtReq
-        \/ RawSend \/ RawOut \/ Boot \/ CacheGet \/ CacheStore \/ CacheStored \/ PfReserve \/ PfDone \/ Other
+        \/ LimCl \/ RawSend \/ RawOut \/ Boot \/ CacheGet \/ CacheStore \/ CacheStored \/ PfReserve \/ PfDone \/ Other
 Spec == Init /\ [][Next]_tvars
 Post == Consumed
 =============================================================================
